@@ -98,15 +98,31 @@ func init() {
 				b := retrypolicy.Builder[string]()
 				// the configuration calls in a random order: none of them may depend on what was called before
 				steps := []func(){func() { b.WithMaxRetries(maxRetries) }}
+				// every other configuration first configures the OTHER delay kinds and then the one it wants: the later call replaces
+				// what the earlier ones set (WithBackoff clears a random delay, WithRandomDelay clears fixed delay and backoff)
+				prelude := i%2 == 1
 				switch c.Kind {
 				case "fixed":
-					steps = append(steps, func() { b.WithDelay(time.Duration(c.D) * u) })
+					steps = append(steps, func() {
+						if prelude {
+							b.WithBackoff(7*u, 700*u).WithRandomDelay(3*u, 9*u)
+						}
+						b.WithDelay(time.Duration(c.D) * u)
+					})
 				case "backoff":
 					steps = append(steps, func() {
+						if prelude {
+							b.WithRandomDelay(3*u, 9*u)
+						}
 						b.WithBackoffFactor(time.Duration(c.D)*u, time.Duration(c.Maxd)*u, float32(c.Fp)/float32(c.Fq))
 					})
 				case "random":
-					steps = append(steps, func() { b.WithRandomDelay(time.Duration(c.Dmin)*u, time.Duration(c.Dmax)*u) })
+					steps = append(steps, func() {
+						if prelude {
+							b.WithBackoff(7*u, 700*u)
+						}
+						b.WithRandomDelay(time.Duration(c.Dmin)*u, time.Duration(c.Dmax)*u)
+					})
 				}
 				if c.Jit != 0 {
 					steps = append(steps, func() { b.WithJitter(time.Duration(c.Jit) * u) })
